@@ -1,11 +1,14 @@
 import Driver.ProgJson
 import Heph.Model.Closed
+import Heph.Model.Capture
 import Heph.Model.Reserved
 import Heph.Model.Assignable
 /-! Ops of property C05.
 
 * `closed.check`  `{<program export>, "keywords": [..], "stats": bool}` →
   `{"r": "ok"}` | `{"r": {"path":…, "reason":…}}` (+ `"kinds": {kind: count}` when `stats`)
+  with `"capture": true` also `"capture": "ok" | {"path":…, "reason":…}` (`Capture.captureCheck`, javac's effectively-final
+  rule) and `"captured": [references, assignments]` that cross a Java lambda boundary
 * `closed.pool`   `{"initial": [..], "ops": [op…]}` → `{"r": [answer…], "words": [..], "initial": [..]}` where op is
     `["word", choice]`            → the word | `"KeyError"` (choice not in the pool: never on a real run);
                                     `["word", null]` → `"IndexError"` iff the pool is empty (`r.choice(())`), else `"bad-request"`
@@ -69,10 +72,19 @@ def handle : Handler := fun op j =>
         | .ok => Json.str "ok"
         | .error path reason => Json.mkObj [("path", Json.str path), ("reason", Json.str reason)]
       let stats := (j.getObjValD "stats") == Json.bool true
+      let cap := (j.getObjValD "capture") == Json.bool true
+      let capFields : List (String × Json) :=
+        if cap then
+          let c := match Capture.captureCheck p with
+            | .ok => Json.str "ok"
+            | .error path reason => Json.mkObj [("path", Json.str path), ("reason", Json.str reason)]
+          let n := Capture.capturedUses p
+          [("capture", c), ("captured", Json.arr #[Json.num (JsonNumber.fromNat n.1), Json.num (JsonNumber.fromNat n.2)])]
+        else []
       if stats then
         let kinds := Json.mkObj ((countKinds p).map fun (k, n) => (k, Json.num (JsonNumber.fromNat n)))
-        pure (Json.mkObj [("r", r), ("kinds", kinds)])
-      else pure (res r))
+        pure (Json.mkObj ([("r", r), ("kinds", kinds)] ++ capFields))
+      else pure (Json.mkObj ([("r", r)] ++ capFields)))
   | "closed.pool" => some (do
       let init ← strList (← j.getObjVal? "initial")
       let ops ← getArr j "ops"
